@@ -209,6 +209,10 @@ func (c *Ctx) Finish(machineryErr error) int {
 	cov["queries_unsat"] = c.Solver.Unsat
 	cov["queries_unknown"] = c.Solver.Unknown
 	cov["solver_errors"] = c.Solver.Errors
+	if c.Solver.Errors > 0 {
+		// an "(error" answer is never a verdict: say so even where the query's caller did not
+		c.Inconclusive(fmt.Sprintf("%d solver answers were errors (counted as unknown, no verdict drawn from them)", c.Solver.Errors))
+	}
 	cov["solver_time_s"] = float64(c.Solver.SolverNs) / 1e9
 	if len(c.Inconcl) > 0 {
 		cov["inconclusive"] = c.Inconcl
